@@ -9,6 +9,11 @@ From P Require Import GenEquiv C06Proofs GenMatch.
 Open Scope list_scope.
 Open Scope string_scope.
 
+(* decide comparisons of closed strings *)
+Ltac seqb := repeat match goal with |- context [String.eqb ?s ?t] =>
+  let v := eval vm_compute in (String.eqb s t) in
+  lazymatch v with true => change (String.eqb s t) with true | false => change (String.eqb s t) with false end end.
+
 Definition pos (e : expr) : argkind * option string * expr := (ARG_POS, None, e).
 Definition call1 (f : string) (a : expr) : expr := ECall (EName f ("builtins." ++ f)) [pos a].
 Definition call2 (f : string) (a b : expr) : expr := ECall (EName f ("builtins." ++ f)) [pos a; pos b].
@@ -207,7 +212,90 @@ Section Behaviour.
         repeat match goal with |- context [Z.ltb ?p ?q] => destruct (Z.ltb_spec p q) | |- context [Z.leb ?p ?q] => destruct (Z.leb_spec p q) end;
         cbn [oval option_map]; try reflexivity; try lia; rewrite ?Hx, ?Hy; f_equal; f_equal; lia.
   Qed.
+
+  (* ---------------------------------------------------------------- FURB149  b is True -> b,  b == False -> not b, ... (16 shapes) *)
+  Variable type_is : expr -> string -> bool.
+
+  Definition truthy_149 (oper name : string) : bool :=
+    let value := String.eqb name "True" in
+    if existsb (String.eqb oper) ["is not"; "!="] then negb value else value.
+  Definition msg_149_lit_left (oper : string) (lt x : expr) : template :=
+    ([PLit "Replace `"; PLit (name_of lt); PLit " "; PLit oper; PLit " "; POperand x oper; PLit "` with `"] ++
+     (if truthy_149 oper (name_of lt) then [POperand x oper] else [PLit "not "; POperand x oper]) ++ [PLit "`"])%list.
+  Definition msg_149_lit_right (oper : string) (x lt : expr) : template :=
+    ([PLit "Replace `"; POperand x oper; PLit " "; PLit oper; PLit " "; PLit (name_of lt); PLit "` with `"] ++
+     (if truthy_149 oper (name_of lt) then [POperand x oper] else [PLit "not "; POperand x oper]) ++ [PLit "`"])%list.
+  Definition repl_149 (oper : string) (lt x : expr) : expr :=
+    if truthy_149 oper (name_of lt) then x else EUnary "not" x.
+  Definition oper_149 (oper : string) : Prop := oper = "is" \/ oper = "is not" \/ oper = "==" \/ oper = "!=".
+
+  Theorem check_149_reports : forall e t, In t (check_149 type_is e) ->
+    exists oper lhs rhs, e = ECmp [oper] [lhs; rhs] /\ oper_149 oper /\
+      ((is_bool_literal lhs = true /\ type_is rhs "bool" = true /\ t = msg_149_lit_left oper lhs rhs) \/
+       (type_is lhs "bool" = true /\ is_bool_literal rhs = true /\ t = msg_149_lit_right oper lhs rhs)).
+  Proof.
+    intros e t H. destruct e; try contradiction. cbn in H.
+    destruct ops as [|oper [|]]; try contradiction.
+    all: repeat match goal with
+    | H : In _ (match ?s with EmptyString => _ | String _ _ => _ end) |- _ => destruct s; try contradiction
+    | H : In _ (match ?a with Ascii _ _ _ _ _ _ _ _ => _ end) |- _ => destruct a
+    | H : In _ (if ?b then _ else _) |- _ => is_var b; destruct b; try contradiction
+    end.
+    all: try contradiction.
+    all: destruct operands as [|lhs [|rhs [|]]]; try contradiction.
+    all: match goal with |- exists oper l r, ECmp [?o] _ = _ /\ _ => exists o, lhs, rhs end; (split; [reflexivity|]);
+      (split; [unfold oper_149; auto|]).
+    all: destruct (is_bool_literal lhs && type_is rhs "bool") eqn:C1;
+      [ apply andb_true_iff in C1 as [A B]; left; destruct H as [<-|[]]; repeat split; assumption
+      | destruct (type_is lhs "bool" && is_bool_literal rhs) eqn:C2; [|contradiction];
+        apply andb_true_iff in C2 as [A B]; right; destruct H as [<-|[]]; repeat split; assumption ].
+  Qed.
+
+  (* what the type guard promises, and what the names True / False denote *)
+  Hypothesis type_is_bool : forall x v, type_is x "bool" = true -> eval x = Some v -> exists b, val v = VBool b.
+  Hypothesis true_is_true : rho "True" = Some otrue.
+  Hypothesis false_is_false : rho "False" = Some ofalse.
+
+  Lemma bool_literal_value lt : guard lt = true -> is_bool_literal lt = true ->
+    exists b, eval lt = Some (fresh (VBool b)) /\ String.eqb (name_of lt) "True" = b.
+  Proof.
+    intros G L. destruct lt; try discriminate. unfold is_bool_literal, is_true_literal, is_false_literal in L.
+    cbn [guard] in G. unfold name_resolved in G. apply andb_true_iff in G as [_ G].
+    apply orb_true_iff in L as [L|L]; apply String.eqb_eq in L; subst fullname; vm_compute in G;
+      apply String.eqb_eq in G; subst name; [exists true|exists false]; split; try reflexivity; unfold PySyn.eval; cbn; assumption.
+  Qed.
+
+  Theorem check_149_sound : forall e t, In t (check_149 type_is e) ->
+    exists oper lhs rhs, e = ECmp [oper] [lhs; rhs] /\
+      (guard lhs = true -> guard rhs = true ->
+       (is_bool_literal lhs = true /\ t = msg_149_lit_left oper lhs rhs /\ oval (eval e) = oval (eval (repl_149 oper lhs rhs))) \/
+       (is_bool_literal rhs = true /\ t = msg_149_lit_right oper lhs rhs /\ oval (eval e) = oval (eval (repl_149 oper rhs lhs)))).
+  Proof.
+    intros e t H. destruct (check_149_reports e t H) as (oper & lhs & rhs & -> & Ho & Hc).
+    exists oper, lhs, rhs. split; [reflexivity|]. intros Gl Gr.
+    destruct Hc as [(L & T & ->)|(T & L & ->)]; [left|right]; (split; [assumption|]); (split; [reflexivity|]).
+    - destruct (bool_literal_value lhs Gl L) as (bl & El & En).
+      destruct (is_display rhs) eqn:D.
+      + assert (eval (ECmp [oper] [lhs; rhs]) = None).
+        { destruct Ho as [-> | [-> | [-> | ->]]]; apply eval_cmp_display_right; auto. }
+        rewrite H0. unfold repl_149. destruct (truthy_149 oper (name_of lhs)); [now rewrite (eval_display_none lit rho rhs D)|].
+        now rewrite eval_not, (eval_display_none lit rho rhs D).
+      + rewrite (eval_cmp lit rho oper lhs rhs D), El. unfold repl_149, truthy_149. rewrite En.
+        destruct (eval rhs) as [v|] eqn:Er; [|destruct Ho as [-> | [-> | [-> | ->]]]; cbn [existsb]; seqb; destruct bl; cbn [orb negb]; cbn iota; rewrite ?eval_not, ?Er; reflexivity].
+        destruct (type_is_bool rhs v T Er) as (b & Hb).
+        destruct Ho as [-> | [-> | [-> | ->]]]; destruct bl, b; cbn [existsb]; seqb; cbn [orb negb andb]; cbn iota; rewrite ?eval_not, ?Er;
+          unfold cmp, py_is, py_not, vbool, fresh; seqb; cbn [val oval option_map]; rewrite ?Hb; cbn; rewrite ?Hb; reflexivity.
+    - destruct (bool_literal_value rhs Gr L) as (bl & Er & En).
+      assert (D : is_display rhs = false) by (destruct rhs; try discriminate; reflexivity).
+      rewrite (eval_cmp lit rho oper lhs rhs D), Er. unfold repl_149, truthy_149. rewrite En.
+      destruct (eval lhs) as [v|] eqn:El; [|destruct Ho as [-> | [-> | [-> | ->]]]; cbn [existsb]; seqb; destruct bl; cbn [orb negb]; cbn iota; rewrite ?eval_not, ?El; reflexivity].
+      destruct (type_is_bool lhs v T El) as (b & Hb).
+      destruct Ho as [-> | [-> | [-> | ->]]]; destruct bl, b; cbn [existsb]; seqb; cbn [orb negb andb]; cbn iota; rewrite ?eval_not, ?El;
+        unfold cmp, py_is, py_not, vbool, fresh; seqb; cbn [val oval option_map]; rewrite ?Hb; cbn; rewrite ?Hb; reflexivity.
+  Qed.
 End Behaviour.
+Print Assumptions check_149_reports.
+Print Assumptions check_149_sound.
 Print Assumptions check_110_sound.
 Print Assumptions check_114_sound.
 Print Assumptions check_171_reports.
